@@ -276,6 +276,33 @@ def loops_to_comprehensions(stmts: list[ast.stmt]) -> list[ast.stmt]:
     return out
 
 
+def unroll_generator_assign(s: ast.stmt, lookup) -> list[ast.stmt] | None:
+    """`a, b, c = (E(x, y) for x, y in TABLE)` with a literal TABLE of matching length (given directly or through a
+    name that `lookup` resolves to a literal tuple/list) -> `a = E(x0, y0); b = E(x1, y1); ...`."""
+    if not (isinstance(s, ast.Assign) and len(s.targets) == 1 and isinstance(s.targets[0], (ast.Tuple, ast.List))
+            and isinstance(s.value, (ast.GeneratorExp, ast.ListComp)) and len(s.value.generators) == 1 and not s.value.generators[0].ifs):
+        return None
+    gen = s.value.generators[0]
+    tab = gen.iter
+    if isinstance(tab, ast.Name):
+        tab = lookup(tab.id)
+    if not isinstance(tab, (ast.Tuple, ast.List)) or len(tab.elts) != len(s.targets[0].elts) or any(isinstance(x, ast.Starred) for x in tab.elts):
+        return None
+    out = []
+    for tg, row in zip(s.targets[0].elts, tab.elts):
+        mapping: dict[str, ast.expr] = {}
+        if isinstance(gen.target, ast.Name):
+            mapping[gen.target.id] = row
+        elif isinstance(gen.target, (ast.Tuple, ast.List)) and isinstance(row, (ast.Tuple, ast.List)) and len(gen.target.elts) == len(row.elts) \
+                and all(isinstance(x, ast.Name) for x in gen.target.elts):
+            mapping = {x.id: y for x, y in zip(gen.target.elts, row.elts)}
+        else:
+            return None
+        val = _Subst(mapping).visit(_copy.deepcopy(s.value.elt))
+        out.append(ast.copy_location(ast.Assign(targets=[tg], value=val), s))
+    return out
+
+
 class Normalizer:
     def __init__(self, module):
         self.mod = module
@@ -400,12 +427,13 @@ class Normalizer:
         for _ in range(6):
             counts = bound_names(fn)
             params = set(_params(fn))
-            stores_txt: dict[str, int] = {}
+            order = {id(st): k for k, st in enumerate(x for x in ast.walk(fn) if isinstance(x, ast.stmt))}
+            stores_txt: dict[str, int] = {}   # attribute chain -> position of its LAST store in the function
             for s in ast.walk(fn):
                 if isinstance(s, (ast.Assign, ast.AugAssign, ast.AnnAssign)):
                     for t in assigned_targets(s):
                         if isinstance(t, ast.Attribute):
-                            stores_txt[u(t)] = min(stores_txt.get(u(t), 10 ** 9), s.lineno)
+                            stores_txt[u(t)] = max(stores_txt.get(u(t), -1), order[id(s)])
             mapping: dict[str, ast.expr] = {}
             for s in stmts_local(fn):
                 tgt = None
@@ -422,7 +450,8 @@ class Normalizer:
                 elif isinstance(e, ast.Name):
                     ok = counts.get(e.id, 0) <= 1 and e.id != tgt
                 elif isinstance(e, ast.Attribute) and _is_chain(e) and counts.get(_chain_root(e), 0) <= 1 and _chain_root(e) != tgt:
-                    ok = not any(txt == u(e) or u(e).startswith(txt + ".") for txt in stores_txt)
+                    # the aliased chain must not be stored at or after the point where the alias is bound
+                    ok = not any((txt == u(e) or u(e).startswith(txt + ".")) and pos >= order[id(s)] for txt, pos in stores_txt.items())
                 if ok:
                     mapping[tgt] = e
             # drop chains through other mapped names (resolved in the next round)
@@ -548,13 +577,23 @@ class Normalizer:
             caller_names.update(hb)
             return new
 
+        def lookup_literal(name: str):
+            """Literal tuple/list bound once to `name` in the function or at module level."""
+            from ..core.astutil import single_assign_value
+            v = single_assign_value(fn, name)
+            if v is None and name not in bound_names(fn):
+                defs = [st for st in self.mod.tree.body if isinstance(st, (ast.Assign, ast.AnnAssign)) and getattr(st, "value", None) is not None
+                        and [u(t) for t in assigned_targets(st)] == [name]]
+                v = defs[0].value if len(defs) == 1 else None
+            return v
+
         def block(stmts: list[ast.stmt], allow: bool = True) -> list[ast.stmt]:
             out: list[ast.stmt] = []
             for s in loops_to_comprehensions(stmts):
                 if isinstance(s, (ast.FunctionDef, ast.AsyncFunctionDef, ast.ClassDef)):
                     out.append(s)
                     continue
-                sp = split_tuple_assign(s)
+                sp = split_tuple_assign(s) or unroll_generator_assign(s, lookup_literal)
                 if sp is not None:
                     out.extend(block(sp, allow))
                     continue
